@@ -118,6 +118,7 @@ func main() {
 			fmt.Fprintln(os.Stderr, "worker: unknown profile in replay file")
 			os.Exit(2)
 		}
+		doWarmup(rf.Warmup, *budget)
 		opt := &sim.Options{Budget: *budget, Sites: decimal128.VerifSiteCount, Property: prof.Property, Checks: prof.Checks, Reverse: prof.Reverse, Trace: true}
 		o := sim.Execute(rf.Program, opt)
 		enc.Encode(runLine{Run: rf.Program.Run, Hash: fmt.Sprintf("%016x", o.Hash), Violations: o.Violations})
@@ -258,6 +259,24 @@ func main() {
 	}
 }
 
+// doWarmup re-creates the process history a violation depends on.
+func doWarmup(w *sim.Warmup, budget uint64) {
+	if w == nil {
+		return
+	}
+	prof := sim.Profiles[w.Profile]
+	if prof == nil {
+		return
+	}
+	for i := 0; i < w.Count; i++ {
+		run := w.From + uint64(i)*w.Stride
+		p, g := sim.Generate(prof, w.Seed, run)
+		opt := &sim.Options{Budget: budget, Sites: decimal128.VerifSiteCount, Property: prof.Property, Checks: false, Reverse: prof.Reverse}
+		opt.Plan = func(ei int, steps [][]uint64) { sim.PlanSchedule(g, p, ei, steps) }
+		sim.Execute(p, opt)
+	}
+}
+
 func doMinimise(path string, race bool, maxTries int, budget uint64) int {
 	data, err := os.ReadFile(path)
 	if err != nil {
@@ -278,7 +297,7 @@ func doMinimise(path string, race bool, maxTries int, budget uint64) int {
 	still := func(c *sim.Program) bool {
 		if race {
 			tmp := path + ".cand"
-			b, _ := json.Marshal(sim.ReplayFile{Program: c})
+			b, _ := json.Marshal(sim.ReplayFile{Program: c, Warmup: rf.Warmup})
 			if os.WriteFile(tmp, b, 0o644) != nil {
 				return false
 			}
@@ -308,6 +327,9 @@ func doMinimise(path string, race bool, maxTries int, budget uint64) int {
 			}
 		}
 		return false
+	}
+	if !race {
+		doWarmup(rf.Warmup, budget)
 	}
 	if !still(rf.Program) {
 		fmt.Fprintln(os.Stderr, "worker: the recorded violation does not reproduce; not minimised")
